@@ -163,8 +163,8 @@ Proof.
     rewrite forallb_forall in A. specialize (A x Hx). apply negb_true_iff in A.
     rewrite A. reflexivity.
   - intros x. unfold hv. destruct (mem_cp x verbose_ws); [right|left; reflexivity].
-    split; [unfold esc_unicode; discriminate|].
-    apply esc_unicode_forall;
+    split; [apply esc_u4_nonnil|].
+    apply esc_u4_forall;
       try (unfold img2_ok; split; [reflexivity|split; discriminate]).
     intros y Hy. unfold hex_range in Hy. unfold img2_ok.
     split; [apply inD_false; lia|split; lia].
@@ -262,14 +262,6 @@ Proof.
   intros a t H. destruct a as [|x [|y a]]; try exact I. exact H.
 Qed.
 
-Lemma drop_last_empty_Forall : forall (P : str -> Prop) ls,
-    Forall P ls -> Forall P (drop_last_empty ls).
-Proof.
-  intros P ls H. unfold drop_last_empty. destruct (rev ls) as [|x r] eqn:E; [exact H|].
-  destruct x; [|exact H].
-  apply Forall_rev. apply Forall_rev in H. rewrite E in H. inversion H; assumption.
-Qed.
-
 Lemma lines_T : forall s, asafeb false s = true -> b2 false s = true ->
     Forall (fun l => asafeb false l = true /\ Lp l) (lines s).
 Proof.
@@ -280,10 +272,8 @@ Proof.
     pose proof (splitnl_nonnil s) as N. destruct (splitnl s) as [|l ls]; [contradiction|].
     simpl in *. constructor; [split; assumption|].
     rewrite Forall_forall in *. intros x Hx. split; [apply A2|apply B2]; exact Hx. }
-  apply (drop_last_empty_Forall _ _) in F.
-  apply Forall_forall. intros l Hl. apply in_map_iff in Hl. destruct Hl as [l0 [E Hl0]].
-  rewrite Forall_forall in F. destruct (F l0 Hl0) as [F1 F2].
-  subst l. rewrite strip_cr_scr. destruct (scr_prefix l0) as [t Et].
+  apply lines_of_Forall; [|exact F].
+  intros l0 [F1 F2]. rewrite strip_cr_scr. destruct (scr_prefix l0) as [t Et].
   split.
   - apply (asafeb_prefix _ t). rewrite <- Et. exact F1.
   - apply (Lp_prefix _ t). rewrite <- Et. exact F2.
